@@ -26,6 +26,8 @@ pub fn check(tier: Tier) -> Check {
     for r in [1u64, 2] {
         parts.push(Part::new("C10/quota", json!({"depth": tier.pick(5, 6), "r": r, "flavour": 2}), 0, tier.pick(25, 400)));
     }
+    // re-authentication (authorize() with reason 0x19, answered by AUTH) between the CONNACK and run()
+    parts.push(Part::new("C10/quota", json!({"depth": tier.pick(4, 6), "r": 1, "flavour": 10}), 0, tier.pick(25, 400)));
     // a Maximum Packet Size as well: a locally refused oversized publish must not take a slot
     parts.push(Part::new("C10/quota", json!({"depth": tier.pick(5, 7), "r": 2, "m": 40}), 0, tier.pick(25, 400)));
     // persistent back-pressure on the write half (WriteBlock / WriteUnblock events)
@@ -54,6 +56,8 @@ pub fn check(tier: Tier) -> Check {
     // a QoS 2 publish abandoned before its PUBREC: the exchange stays open on the server's side, so its
     // slot must not be handed out again on a successful PUBREC (only a failing one ends it)
     parts.push(Part::new("C10/abandoned", json!({}), 0, 60));
+    // two open exchanges under one identifier value (the counter rewound by the hook): two slots
+    parts.push(Part::new("C10/same-id", json!({}), 0, 60));
     parts.push(Part::new("C10/fill", json!({"r": 65535}), 0, 120));
     parts.push(Part::new("C10/fill", json!({"r": 0}), 0, 120));
     parts.push(Part::new("C10/fill", json!({"r": 300}), 0, 120));
@@ -170,7 +174,45 @@ fn abandoned(name: String, params: Value) -> Scenario {
     })
 }
 
+/// Outside C11's premise (65535 identifiers handed out while an exchange is open) the counter comes
+/// round to an identifier that is still in use. Here the hook rewinds it instead. C10 has no such
+/// premise: an exchange takes one slot whatever identifier it travels under, so R outstanding
+/// publishes - two of them under the same identifier - exhaust the quota like any other R.
+fn same_id(name: String, params: Value) -> Scenario {
+    Box::new(move |chz, ex| {
+        let r = 2 + chz.choose(3) as u16;
+        let q_open = 1 + chz.choose(2) as u8;
+        let q_dup = 1 + chz.choose(2) as u8;
+        let dup_at = chz.choose((r - 1) as usize); // which of the later fillers repeats the identifier
+        let mut sys = Sys::new("C10", &name, chz);
+        sys.params = params.clone();
+        sys.m.check_client_acks = false;
+        sys.m.allow_pid_reuse = true;
+        sys.bring_up(receive_max(r));
+        sys.w.handle().verif_set_ids(7, 1);
+        sys.events.push("PresetPacketId(7)".into());
+        sys.apply(Ev::Start(OpSpec::Publish(PublishSpec::simple(q_open, "t/open", b"open"))));
+        for i in 0..(r - 1) as usize {
+            if i == dup_at {
+                sys.w.handle().verif_set_ids(7, 1);
+                sys.events.push("PresetPacketId(7)  [the counter has come round]".into());
+                sys.apply(Ev::Start(OpSpec::Publish(PublishSpec::simple(q_dup, "t/dup", b"same identifier"))));
+            } else {
+                sys.apply(Ev::Start(OpSpec::Publish(PublishSpec::simple(1, "t/f", b"fill"))));
+            }
+        }
+        // R exchanges are open: the next QoS>0 publish is refused, a QoS 0 publish is not
+        sys.apply(Ev::Start(OpSpec::Publish(PublishSpec::simple(1, "t/p", b"probe"))));
+        sys.apply(Ev::Start(OpSpec::Publish(PublishSpec::simple(0, "t/z", b"free"))));
+        sys.finish();
+        sys.report(ex, &["quota-refusal"]);
+    })
+}
+
 pub fn scenario(name: &str, params: &Value) -> Scenario {
+    if name == "C10/same-id" {
+        return same_id(name.to_string(), params.clone());
+    }
     if name == "C10/abandoned" {
         return abandoned(name.to_string(), params.clone());
     }
